@@ -76,4 +76,32 @@ def smRun (toks : List String) : Option String := do
   let rs := run { advMaxStreams := maxs } evs
   pure ("/".intercalate (rs.map fun r => "+".intercalate (r.map showReaction)))
 
+/-- RESET-IN-FLIGHT reading (RFC 7540 5.1, "closed"): a frame for a stream that the SERVER has closed by sending
+RST_STREAM may have been sent before the client saw the reset; the server "MUST ignore frames that it receives on
+closed streams after it has sent a RST_STREAM frame" (for a while). The specification run therefore ignores
+HEADERS / RST_STREAM / WINDOW_UPDATE / PRIORITY on such a stream and answers DATA as the code does (stream error
+STREAM_CLOSED); everything else follows the model. -/
+def smRunSpec (toks : List String) : Option String := do
+  let maxs ← (← kv toks "maxstreams").toNat?
+  let evs ← ((← kv toks "ev").splitOn ",").mapM parseSMTok
+  let evs := evs.map fun e => match e with
+    | .headers sid _ _ .framerInvalid _ => Ev.readStreamError sid PROTOCOL
+    | e => e
+  let rec go (c : Conn) (resetByServer : List Nat) : List Ev → List (List Reaction)
+    | [] => []
+    | e :: r =>
+      -- what a client that is still uploading sends next: the request's trailers (or a reset / window update)
+      let inFlight := match e with
+        | .headers sid _ _ (.trailers _) _ | .rst sid | .windowUpdate sid _ | .priority sid _ =>
+          resetByServer.contains sid && (findStream c sid).isNone && !(dead c)
+        | _ => false
+      if inFlight then [] :: go c resetByServer r
+      else
+        let (c', rs) := stepObs c e
+        -- only the "complete response before the request ended" reset (RST_STREAM NO_ERROR, RFC 7540 8.1) opens the window
+        let newResets := rs.filterMap fun x => match x with | .rst s 0 => some s | _ => none
+        rs :: go c' (resetByServer ++ newResets) r
+  let rs := go { advMaxStreams := maxs } [] evs
+  pure ("/".intercalate (rs.map fun r => "+".intercalate (r.map showReaction)))
+
 end Fp.Driver
